@@ -8,6 +8,10 @@ import numpy as np
 import core
 from core import Fraction, frac, rat
 
+MODELLED = ["evo/core/lie_algebra.py:" + f for f in (
+    "hat", "vee", "so3_exp", "so3_log", "so3_log_angle", "se3", "sim3", "so3_from_se3", "se3_inverse", "sim3_scale",
+    "sim3_inverse", "is_so3", "is_se3", "is_sim3", "relative_so3", "relative_se3", "sst_rotation_from_matrix")]
+
 U = Fraction(64, 2 ** 53)            # numeric policy: 64·2⁻⁵³ × magnitude
 PI_LO = Fraction(3141592653589793238462643383279, 10 ** 30)      # < π
 PI_HI = Fraction(3141592653589793238462643383280, 10 ** 30)      # > π
@@ -802,6 +806,7 @@ def shrink(case):
 
 def check(ctx):
     lean = core.lean_side(ctx.prop, ctx.tier)
+    core.drift(ctx, MODELLED)
     cases = list(gen_cases(ctx))
     evaluate(ctx, cases)
     core.shrink_all(ctx, shrink, evaluate)
